@@ -359,16 +359,21 @@ class Ctx:
         self.stats = {}
 
 
+RECONFIRM_BUDGET_S = float(os.environ.get("HV_RECONFIRM_BUDGET_S", "240"))
+
+
 def evaluate(prop, drv, cases, variants=None):
     """Run impl + model + judge on cases. Returns list of dict per case."""
     variants = variants or prop.variants
     impl_outs = pmap_impl(prop, cases)
     # a timeout under load is retried serially once with a doubled limit before it counts
-    retried = 0
+    # (a tree that really hangs times out again: stop after a few confirmed timeouts, do not serialise them all)
+    confirmed_to, t_retry = 0, time.time()
     for k, o in enumerate(impl_outs):
-        if o == ["IMPL-TIMEOUT"] and retried < 3:   # (many timeouts are not load: do not serialise them all)
-            retried += 1
+        if o == ["IMPL-TIMEOUT"] and confirmed_to < 3 and time.time() - t_retry < RECONFIRM_BUDGET_S:
             impl_outs[k] = run_impl_safe(prop, cases[k], prop.case_timeout_s * 2)
+            if impl_outs[k] == ["IMPL-TIMEOUT"]:
+                confirmed_to += 1
     from_impl = getattr(prop, "model_block_from_impl", None)
     res = [dict(case=c, impl=o, agree=None, variant=None, judge=None, model=None) for c, o in zip(cases, impl_outs)]
     pending = list(range(len(cases)))
@@ -390,8 +395,13 @@ def evaluate(prop, drv, cases, variants=None):
         pending = still
     # a disagreement is re-confirmed once, serially, before it counts: under machine load a case can
     # time out or be cut short in a pool worker; the number of such retractions is reported
-    still = list(pending[6:])       # (many disagreements are not load; re-confirm only the first ones)
-    for i in pending[:6]:
+    # (a tree that really disagrees keeps disagreeing: after a few confirmed disagreements, or when the
+    # wall budget is used up, the remaining ones count without a re-run)
+    still, confirmed, t_conf = [], 0, time.time()
+    for n_seen, i in enumerate(pending):
+        if confirmed >= 4 or time.time() - t_conf > RECONFIRM_BUDGET_S:
+            still.extend(pending[n_seen:])
+            break
         again = run_impl_safe(prop, cases[i], prop.case_timeout_s * 2)
         if again != res[i]["impl"]:
             ok = False
@@ -405,6 +415,7 @@ def evaluate(prop, drv, cases, variants=None):
             if ok:
                 continue
             res[i]["impl"] = again
+        confirmed += 1
         still.append(i)
     for i in still:
         res[i]["agree"] = False
